@@ -10,10 +10,36 @@ from lib import histcheck as H
 from lib import histprops as P
 
 
+def gen_big(rng, cid):
+    """a store with well over a hundred version records (Badger's iterator recycles its buffers after 100 prefetched
+    items), then Close/Open and a read of everything"""
+    nk = rng.choice([60, 110, 150, 220])
+    ls = ["case %s roots=1" % cid, "keytab " + " ".join(("k%03d" % k).encode().hex() for k in range(nk))]
+    v = 0
+    for k in range(1, nk + 1):
+        v += 1
+        ls.append("set 0 %d %d %d s" % (k, v, rng.choice([1, 3, 7])))
+    for _ in range(nk // 3):
+        k = rng.randint(1, nk)
+        if rng.random() < 0.6:
+            v += 1
+            ls.append("set 0 %d %d %d s" % (k, v, rng.choice([2, 5])))
+        else:
+            ls.append("del 0 %d" % k)
+    if rng.random() < 0.5:
+        ls += ["begin RC"] + ["set 1 %d %d 4 s" % (rng.randint(1, nk), v + j + 1) for j in range(5)] + ["commit 1"]
+        v += 5
+    ls += ["reopen", "keys 0"] + ["get 0 %d g" % k for k in range(1, nk + 1)]
+    v += 1
+    ls += ["set 0 1 %d 3 s" % v, "reopen", "keys 0", "get 0 1 g", "get 0 %d g" % nk, "end"]
+    return "\n".join(ls)
+
+
 def gen(rng, tier):
     n = 140 if tier == "quick" else 3000
-    return [G.gen_history(rng, "r%d" % i, profile=rng.choice(["mixed", "conflict", "autocommit"]), reopen_p=0.08,
-                          probe_p=0.15, gc_p=0.04, nkeys=rng.randint(1, 4)) for i in range(n)]
+    cases = [G.gen_history(rng, "r%d" % i, profile=rng.choice(["mixed", "conflict", "autocommit"]), reopen_p=0.08,
+                           probe_p=0.15, gc_p=0.04, nkeys=rng.randint(1, 4)) for i in range(n)]
+    return cases + [gen_big(rng, "big%d" % i) for i in range(3 if tier == "quick" else 30)]
 
 
 def project(case, inst):
